@@ -458,6 +458,21 @@ def modules_follow_the_derivative(ctx: Ctx) -> None:
                     if got.shape != want.shape or not bool(same.all()):
                         ctx.violation(f"module-state:{p}:{g}", f"{type(m).__name__} ({builder}) .{g}() without arguments differs from the same call with the derivative's current state given explicitly ({label})",
                                       {"step": label, "without_arguments": got.flatten().tolist()[:9], "with_current_state": want.flatten().tolist()[:9]})
+                # a module asked for NOW (BlackScholes(d) again, after the derivative was used and re-configured) is the module of the
+                # derivative as it is now: its strike, its value at the current state
+                if builder == "BlackScholes":
+                    try:
+                        m_now = BlackScholes(d)
+                        by_ctor = classes()[p][1](call=True, strike=d.strike)
+                        got = m_now.price()
+                        want = by_ctor.price(**{k: v.clone() for k, v in raw.items()})
+                        ctx.count(n=got.numel())
+                        same = ((got - want).abs() <= 1e-12 * (1 + want.abs())) | (got.isnan() & want.isnan())
+                        if m_now.strike != d.strike or got.shape != want.shape or not bool(same.all()):
+                            ctx.violation(f"module-state:{p}:rebuilt", f"BlackScholes(derivative) built after [{label}] is not the module of the derivative as it is now (strike {d.strike})",
+                                          {"step": label, "module_strike": float(m_now.strike), "derivative_strike": float(d.strike), "price": got.flatten().tolist()[:6], "expected": want.flatten().tolist()[:6]})
+                    except Exception as e:
+                        ctx.violation(f"module-state:{p}:raises", f"BlackScholes(derivative).price() raised {type(e).__name__} ({label})", {"error": repr(e)[:200]})
                 if p == "american_binary":
                     pr = m.price()
                     reached = d.max_log_moneyness() >= 0
